@@ -140,6 +140,35 @@ def untyped_pair_cases(ctx):
     return cases
 
 
+def list_window_cases(ctx):
+    """directed: element lists WITHOUT `...` that also carry a length window with room above or below their element
+    count (declared so, or produced by substituting into a typed list with a window — a two-step sequence), against
+    values shorter than, as long as and longer than the element list"""
+    from d42 import schema
+    cases = []
+    mk = [lambda: schema.list([schema.int.min(0), schema.int.min(0)]).len(1, 3), lambda: schema.list([schema.int]).len(1, ...),
+          lambda: schema.list([schema.int, schema.str]).len(..., 4), lambda: schema.list([schema.int.min(0)]).len(0, 2),
+          lambda: substitute(schema.list(schema.int.min(0)).len(2, ...), [1, 2]), lambda: substitute(schema.list(schema.int).len(1, 3), [5]),
+          lambda: substitute(schema.list(schema.str).len(..., 3), ["a", "b"]), lambda: schema.list([]).len(0, 2),
+          lambda: schema.dict({"xs": schema.list([schema.int, schema.int]).len(2, 4)}),
+          lambda: schema.list(schema.list([schema.int]).len(1, 2)), lambda: schema.any(schema.list([schema.int]).len(1, 3), schema.none)]
+    vals = [[], [1], [1, 2], [1, 2, 3], [1, "a"], [1, "a", 2], ["a", "b", "c"], [5], [5, 6], [1, 2, 3, 4]]
+    for m in mk:
+        try:
+            s = m()
+        except Exception:  # noqa: BLE001
+            continue
+        for v in vals:
+            from d42.declaration.types import DictSchema, ListSchema
+            vv = v
+            if isinstance(s, DictSchema):
+                vv = {"xs": v}
+            elif isinstance(s, ListSchema) and s.props.get("type") is not __import__("niltype").Nil:
+                vv = [v, v[:1]]
+            cases.append(SubCase(s, None, vv, "list-window"))
+    return cases
+
+
 def list_form_cases(ctx):
     """directed: every list form with 1..3 body elements against short value sequences enumerated exhaustively over a
     small member universe that includes members `from_native` cannot convert and relaxed dicts with extra keys"""
